@@ -29,7 +29,14 @@ class aggregate_node_transformer(ast.NodeTransformer):
     """
 
     def visit_Call(self, node):
-        if type(node.func) is ast.Name:
+        # A shortcut takes exactly one plain argument: the sequence. A call with keywords or a
+        # starred argument is something else and is left alone.
+        one_plain_arg = (
+            len(node.args) == 1
+            and len(node.keywords) == 0
+            and not isinstance(node.args[0], ast.Starred)
+        )
+        if type(node.func) is ast.Name and one_plain_arg:
             if (node.func.id == "len" or node.func.id == "Count") and (len(node.args) == 1):
                 # This is a len(sequence) call, which should be turned into a .Count() call.
                 return _generate_count_call(self.visit(node.args[0]))
